@@ -43,6 +43,211 @@ def cursor_events(fn):
     return ev
 
 
+WRITE_FUNCS = {"memcpy": (0, 2), "memmove": (0, 2), "memset": (0, 2), "std::memcpy": (0, 2), "std::memmove": (0, 2), "std::memset": (0, 2),
+               "std::fill_n": (0, 1), "std::copy_n": (2, 1)}
+
+
+def write_tiling(fb, fn):
+    """Per path of builder fn, the positions of its raw writes as linear forms relative to
+    payloadData.data() (symbol D) or to its own pointer parameter (symbol P).
+    Yields (key, loc, ok, text when ok, text when violated)."""
+    from rules.decoder_rules import _linear
+    defs = local_defs(fn)
+    ptr_params = [p["decl"] for p in fn.params if p["t"].get("k") == "ptr" and not p["t"].get("pconst")]
+    hdr = None
+    if fn.rec:
+        from cmpverif.accessors import header_view_record
+        try:
+            hdr = fb.record(header_view_record(fb, fn.rec))["size"]
+        except Broken:
+            hdr = None
+
+    def fmt(form):
+        if form is None:
+            return "?"
+        parts = []
+        for k in sorted(form, key=str):
+            v = form[k]
+            if v == 0:
+                continue
+            if k == 1:
+                parts.append(str(v))
+            else:
+                nm = str(k).split(":")[-1] if str(k).startswith(("l", "p")) and ":" in str(k) else str(k)
+                parts.append(nm if v == 1 else "%d*%s" % (v, nm))
+        return " + ".join(parts) or "0"
+
+    def clean(form):
+        return {k: v for k, v in form.items() if v != 0 or k == 1}
+
+    def add(a, b, sign=1):
+        out = dict(a)
+        for k, v in b.items():
+            out[k] = out.get(k, 0) + sign * v
+        return clean(out)
+
+    def eq(a, b):
+        return a is not None and b is not None and {k: v for k, v in clean(a).items() if v} == {k: v for k, v in clean(b).items() if v}
+
+    def inside(form):
+        """the form is a position in the payload buffer (relative to data(), the pointer parameter or a helper's result)"""
+        return form is not None and sum(v for k, v in form.items() if k in ("D", "P") or str(k).startswith("after(")) == 1
+
+    out = []
+    for pi, p in enumerate(paths.enumerate_paths(fn)):
+        pos = {}  # pointer local/param -> form
+        for d in ptr_params:
+            pos[d] = {"P": 1, 1: 0}
+        sval = {}  # multi-definition scalar local -> constant it holds on this path
+
+        ver = {}  # multi-definition local -> number of assignments seen so far on this path
+
+        def stamp(x):
+            """opaque symbol for expression x, versioned by the assignments its operands have seen so far"""
+            vs = sorted("%s#%d" % (d.split(":")[-1], ver.get(d, 0)) for d in reads(x) if d in ver)
+            return canon(x) + ("{" + ",".join(vs) + "}" if vs else "")
+
+        def lin(e, depth=6):
+            e = strip_all_casts(e)
+            c = const_value(e)
+            if c is not None:
+                return {1: c}
+            k = e.get("k")
+            if k == "ref" and e.get("decl") in pos:
+                return pos[e["decl"]]
+            if k == "ref" and e.get("decl") in sval:
+                return {1: sval[e["decl"]]}
+            if k == "bin" and e.get("op") in ("+", "-"):
+                a, b = lin(e["l"], depth), lin(e["r"], depth)
+                if a is None or b is None:
+                    return None
+                return add(a, b, 1 if e["op"] == "+" else -1)
+            if k == "bin" and e.get("op") == "*":
+                for x, y in ((e["l"], e["r"]), (e["r"], e["l"])):
+                    cx = lin(x, depth)
+                    if cx is not None and set(clean(cx)) <= {1}:
+                        b = lin(y, depth)
+                        return None if b is None else clean({kk: v * cx.get(1, 0) for kk, v in b.items()})
+            if k == "ref" and e.get("dk") == "local" and len(defs.get(e["decl"], [])) == 1 and depth > 0:
+                r = lin(defs[e["decl"]][0], depth - 1)
+                return r if r is not None else {e["decl"]: 1}
+            if k == "ref" and e.get("dk") in ("local", "param"):
+                return {"%s#%d" % (e["decl"], ver.get(e["decl"], 0)) if e["decl"] in ver else e["decl"]: 1}
+            if k == "call" and (e.get("callee") or {}).get("nm") == "data" and strip_all_casts(e.get("obj", {})).get("name") == "payloadData":
+                return {"D": 1}
+            if any(x.get("k") in ("assign", "cassign") or (x.get("k") == "un" and x.get("op") in ("pre++", "post++", "pre--", "post--")) for x in walk(e)):
+                return None
+            if any(x.get("k") == "ref" and x.get("decl") in pos for x in walk(e)):
+                return None
+            return {stamp(e): 1}
+
+        for d, es in defs.items():
+            if len(es) > 1:
+                ver[d] = 0
+
+        prev_end = None
+        first = True
+        last_write = None
+        for _, n in p.elems():
+            k = n.get("k")
+            if k in ("assign", "cassign") and lvalue_root(n["l"]) in ver:
+                ver[lvalue_root(n["l"])] += 1
+            elif k == "un" and n.get("op") in ("pre++", "post++", "pre--", "post--") and lvalue_root(n["e"]) in ver:
+                ver[lvalue_root(n["e"])] += 1
+            if k == "decl":
+                for v in n.get("vars", []):
+                    if isinstance(v.get("init"), dict) and (v["t"].get("k") == "ptr"):
+                        f = lin(v["init"])
+                        if inside(f):
+                            pos[v["decl"]] = f
+                    elif isinstance(v.get("init"), dict) and len(defs.get(v["decl"], [])) > 1 and const_value(v["init"]) is not None:
+                        sval[v["decl"]] = const_value(v["init"])
+            elif k == "assign" and strip_all_casts(n["l"]).get("decl") in sval or (k == "assign" and strip_all_casts(n["l"]).get("k") == "ref" and
+                                                                                   len(defs.get(strip_all_casts(n["l"]).get("decl"), [])) > 1 and
+                                                                                   (strip_all_casts(n["l"]).get("t") or {}).get("k") == "int"):
+                d = strip_all_casts(n["l"])["decl"]
+                c = const_value(n["r"])
+                if c is not None:
+                    sval[d] = c
+                else:
+                    sval.pop(d, None)
+            elif k == "cassign" and strip_all_casts(n["l"]).get("decl") in sval:
+                sval.pop(strip_all_casts(n["l"])["decl"], None)
+            elif k == "un" and n.get("op") in ("pre++", "post++", "pre--", "post--") and strip_all_casts(n["e"]).get("decl") in sval:
+                sval.pop(strip_all_casts(n["e"])["decl"], None)
+            elif k == "cassign" and n.get("op") in ("+", "-") and strip_all_casts(n["l"]).get("decl") in pos:
+                d = strip_all_casts(n["l"])["decl"]
+                f = lin(n["r"])
+                pos[d] = add(pos[d], f, 1 if n["op"] == "+" else -1) if f is not None and pos[d] is not None else None
+            elif k == "assign" and strip_all_casts(n["l"]).get("decl") in pos or \
+                    (k == "assign" and (strip_all_casts(n["l"]).get("t") or {}).get("k") == "ptr" and strip_all_casts(n["l"]).get("k") == "ref"):
+                d = strip_all_casts(n["l"])["decl"]
+                r = strip_all_casts(n["r"])
+                g = fb.resolve_call(r) if r.get("k") == "call" else None
+                if g is not None and g.name in CURSOR_BUILDERS and r.get("args"):
+                    # a helper that writes from its pointer argument and returns the end of what it wrote
+                    start = lin(r["args"][0])
+                    key = "helper@%s" % (n.get("loc") or "").split(":", 1)[-1]
+                    ok = start is not None and (first and hdr is not None and eq(start, {"D": 1, 1: hdr}) or (not first and eq(start, prev_end)))
+                    out.append((key, n.get("loc"), ok, "%s continues at %s" % (g.name.split("::")[-1], fmt(start)),
+                                "%s is handed position %s but the previous write ended at %s: bytes in between keep whatever the buffer held" %
+                                (g.name.split("::")[-1], fmt(start), fmt(prev_end) if not first else "sizeof(Header)")))
+                    sym = "after(%s@%s)" % (g.name.split("::")[-1], (n.get("loc") or "").split(":")[1] if n.get("loc") else n["id"])
+                    pos[d] = {sym: 1, 1: 0}
+                    prev_end = pos[d]
+                    first = False
+                    last_write = n
+                else:
+                    pos[d] = lin(n["r"])
+            elif k == "call" and callee_name(n) in WRITE_FUNCS and len(n.get("args", [])) == 3:
+                di, li = WRITE_FUNCS[callee_name(n)]
+                start, ln = lin(n["args"][di]), lin(n["args"][li])
+                key = "write@%s" % (n.get("loc") or "").split(":", 1)[-1]
+                if ln is None or not inside(start):
+                    dd = strip_all_casts(n["args"][di])
+                    if dd.get("k") == "un" and dd.get("op") == "&":
+                        continue  # a write into a local object, not into the payload
+                    if start is not None and not any(k in ("D", "P") or str(k).startswith("after(") for k in start):
+                        continue
+                    out.append((key, n.get("loc"), False, "", "the position or length of this write is not a linear form over the operands (%s, %s)" % (fmt(start), fmt(ln))))
+                    continue
+                if first:
+                    want = {"D": 1, 1: hdr} if start.get("D") == 1 and hdr is not None else {"P": 1, 1: 0}
+                    ok = eq(start, want)
+                    out.append((key, n.get("loc"), ok, "first write at %s" % fmt(start),
+                                "the first write lands at %s, the variable part starts at %s" % (fmt(start), fmt(want))))
+                else:
+                    ok = eq(start, prev_end)
+                    out.append((key, n.get("loc"), ok, "starts at %s where the previous write ended" % fmt(start),
+                                "this write starts at %s but the previous one ended at %s: %s" %
+                                (fmt(start), fmt(prev_end), "the bytes in between keep whatever the buffer held / earlier bytes are overwritten")))
+                prev_end = add(start, ln)
+                first = False
+                last_write = n
+            elif k == "call" and (n.get("callee") or {}).get("nm") == "resize" and strip_all_casts(n.get("obj", {})).get("name") == "payloadData" and not first:
+                amount = lin(n["args"][0])
+                want = add(prev_end, {"D": 1}, -1) if prev_end is not None else None
+                key = "final-size@%s" % (n.get("loc") or "").split(":", 1)[-1]
+                out.append((key, n.get("loc"), eq(amount, want), "final size %s = end of the last write" % fmt(amount),
+                            "the payload is finally sized to %s but the last write ended at %s" % (fmt(amount), fmt(want))))
+            elif k == "return" and n.get("e") is not None and ptr_params and (strip_all_casts(n["e"]).get("t") or {}).get("k") == "ptr":
+                rv = lin(n["e"])
+                key = "returns-end@%s" % (n.get("loc") or "").split(":", 1)[-1]
+                out.append((key, n.get("loc"), eq(rv, prev_end), "returns %s, the end of its last write" % fmt(rv),
+                            "returns position %s but its last write ended at %s" % (fmt(rv), fmt(prev_end))))
+        # the sizing resize that precedes the writes must equal the end of the last write when nothing resizes afterwards
+        if not first and not ptr_params:
+            sizes = [c for c in p.calls("std::vector::resize") if strip_all_casts(c.get("obj", {})).get("name") == "payloadData"]
+            if len(sizes) == 1:
+                pos_backup = dict(pos)
+                amount = lin(sizes[0]["args"][0])
+                want = add(prev_end, {"D": 1}, -1) if prev_end is not None else None
+                key = "size@%s" % (sizes[0].get("loc") or "").split(":", 1)[-1]
+                out.append((key, sizes[0].get("loc"), eq(amount, want), "buffer sized to %s = end of the last write" % fmt(amount),
+                            "the buffer is sized to %s but the writes end at %s" % (fmt(amount), fmt(want))))
+    return out
+
+
 def parity(fn, path, var_decl, upto_id):
     """Parity of local `var_decl` just before element `upto_id` on a path: 'even' | 'odd' | 'unknown'."""
     par = "unknown"
@@ -129,8 +334,10 @@ def run(ctx):
     res.rule("C13-R1", "one length, all uses: in each setData the length written to the header, the copy length and the resize amount "
                         "(sizeof(Header) + n) are the same parameter; only the length/DLC setters are called on the header")
     res.rule("C13-R2", "DLC table: encodeDlc tabulated over all 256 arguments equals the CAN-FD length->DLC table for every valid length")
-    res.rule("C13-R3", "every advanced byte is written: in the cursor-style builders every advance of the write cursor by k is preceded, at the "
-                        "same cursor, by a write of k bytes")
+    res.rule("C13-R3", "the written bytes tile the variable part: on every path of the multi-field builders, positions (as linear forms over the "
+                        "operands, through a moving cursor or explicit offsets) show that the first write starts at sizeof(Header) or at the helper's "
+                        "pointer, every later write starts where the previous one ended (no gap, no overlap), a helper returns the end of its last "
+                        "write, and a final resize equals the end of the last write")
     res.rule("C13-R4", "string framing: the length written by fillWithString depends on str.size(), is even on every path (parity domain over "
                         "the CFG), includes a terminator (+1), and the trailing write of length - str.size() bytes comes from a zero-initialised array")
     res.rule("C13-R5", "buffer sized before it is written: each builder's resize dominates its first write and its size expression depends on "
@@ -235,25 +442,17 @@ def run(ctx):
     res.check(not bad, "C13-R2", "encodeDlc", enc.loc, "all 16 valid lengths map to their DLC (256 arguments tabulated)",
               "encodeDlc(%d) = %s, CAN-FD table says %d" % (bad[0] if bad else (0, 0, 0)))
 
-    # ---- R3 cursor builders
+    # ---- R3 written bytes tile the variable part
     n3 = 0
+    seen3 = set()
     for name in CURSOR_BUILDERS:
         f = fb.fn(name)
-        ev = cursor_events(f)
-        pending = {}
-        for kind, cur, ln, n, b in ev:
-            if kind == "write":
-                pending[cur] = ln
-            elif kind == "advance":
-                n3 += 1
-                ok = pending.get(cur) == ln
-                res.check(ok, "C13-R3", "%s:advance(%s)" % (name.replace(NS, ""), ln.replace("p", "", 0)), n.get("loc"),
-                          "cursor advances by %s after a write of the same length" % ln,
-                          "the write cursor advances by %s without those bytes being written (last write at the cursor: %s): the bytes keep "
-                          "whatever the object held before" % (ln, pending.get(cur)))
-                pending.pop(cur, None)
-            elif kind == "reassign":
-                pending.pop(cur, None)
+        for key, loc, ok, good, bad_msg in write_tiling(fb, f):
+            if (key, ok) in seen3:
+                continue
+            seen3.add((key, ok))
+            n3 += 1
+            res.check(ok, "C13-R3", "%s:%s" % (name.replace(NS, ""), key), loc, good, bad_msg)
 
     # ---- R4 string framing
     fs = fb.fn(NS + "CaptureModulePayload::fillWithString")
@@ -327,7 +526,7 @@ def run(ctx):
                       "size depends on sizeof(Header) and on every variable-length operand (%s)" % sorted(x.split(":")[1] for x in need),
                       "the resize amount does not depend on %s" % [x.split(":")[1] for x in missing])
     res.floor("C13-R1", 15)
-    res.floor("C13-R3", 8, n3)
+    res.floor("C13-R3", 14, n3)
     res.floor("C13-R4", 3)
     res.floor("C13-R5", 4)
     return res
